@@ -441,6 +441,7 @@ class Result:
         self.nontrivial = False
         self.skipped = None
         self.materialized = None
+        self.frag = None     # evidence only: theorem -> "in" | first failing hypothesis (Lean driver)
 
 
 def _post_obs(nl, defs_in_order):
@@ -464,6 +465,8 @@ def uniquify_round(nl, ctr, drv, R, rno):
         R.tags.append("hist.stop:not-elaborable")
         return False
     chk = drv.ask({"fn": "spec", "design": design})
+    if rno == 0 and "fragments" in chk:
+        R.frag = {t: v for t, v in chk["fragments"].items() if t.startswith("uniquify")}
     if "error" in chk or not chk["wf"]:
         R.skipped = R.skipped or ("input-out-of-domain" if rno == 0 else None)
         R.tags.append("hist.stop:out-of-domain")
@@ -648,7 +651,10 @@ def eval_flatten(spec, drv):
     except ValueError:
         R.skipped = "input-out-of-domain"
         return R
-    chk = drv.ask({"fn": "spec", "design": design})
+    n_inst = sum(len(D["children"]) for D in design["defs"])
+    chk = drv.ask({"fn": "spec", "design": design, "flatFuel": n_inst + 5})
+    if "fragments" in chk:
+        R.frag = {t: v for t, v in chk["fragments"].items() if not t.startswith("uniquify")}
     if "error" in chk or not (chk["wf"] and chk["idsUnique"] and chk["named"]):
         R.skipped = "input-out-of-domain"
         return R
@@ -1080,6 +1086,26 @@ def gen_input(pid, rng, tier):
     return "dag+uniquify", s
 
 
+FRAG_THEOREMS = {
+    "C08": ["uniquify_correct", "uniquify_wf", "uniquify_unique", "uniquify_preserves_elab", "uniquify_fresh_names"],
+    "C09": ["flatten_wf", "flatten_leaves", "flatten_preserves_conn", "flatten_preserves_elab_conn", "flatten_leftovers",
+            "connU_eq_conn"],
+}
+
+
+def record_fragments(res, pid, frag, why_not):
+    """evidence only (no verdict depends on it): for every generated case, whether it lies inside the
+    fragment each headline theorem is proved for, as evaluated by the Lean driver on that case"""
+    for t in FRAG_THEOREMS[pid]:
+        v = (frag or {}).get(t)
+        if v is None:
+            res.dist("theorem_fragment:%s:out:not-evaluated(%s)" % (t, why_not or "no-dump"))
+        elif v == "in":
+            res.dist("theorem_fragment:%s:in" % t)
+        else:
+            res.dist("theorem_fragment:%s:out:%s" % (t, v))
+
+
 def shard_worker(pid, tier, seed, shard_no, n_cases, budget_s):
     import random
     res = shard.ShardResult()
@@ -1095,8 +1121,10 @@ def shard_worker(pid, tier, seed, shard_no, n_cases, budget_s):
             us = unfold_size(spec, MAX_UNFOLD)
             if us is None:
                 res.dist("skipped:too-large")
+                record_fragments(res, pid, None, "unfolding>%d" % MAX_UNFOLD)
                 continue
             R = evaluate(pid, spec, drv)
+            record_fragments(res, pid, R.frag, R.skipped)
             if R.skipped:
                 res.dist("skipped:" + R.skipped)
                 continue
